@@ -98,7 +98,7 @@ def run(chk):
     chk.assumptions += kunit.ASSUMPTIONS
     if not crate.build():
         raise core.Inconclusive("K-unit build failed:\n" + crate.build_log[-3000:])
-    tmo = 240 if chk.tier == "quick" else 1800
+    tmo = 600 if chk.tier == "quick" else 2400
     lit_src = open(os.path.join(core.VERIF, "kani", "unit", "src", "h", "c12.rs")).read()
     lit_names = [n for n in harness_names(lit_src, "c14_") if not chk.only or any(o in n for o in chk.only)]
     specs = [dict(name="h::c12::" + n, timeout=tmo, info=dict(
